@@ -6,6 +6,7 @@ import BoboVerif.Lemmas.TcpAccount
 import BoboVerif.Lemmas.TcpRun
 import BoboVerif.Lemmas.TcpLattice
 import BoboVerif.Lemmas.ClusterFaults
+import BoboVerif.Lemmas.TcpCluster
 /-!
 C06 — Link failures lose nothing: backlog or full resync restores consistency.
 
@@ -865,3 +866,206 @@ theorem snapshot_means_knowledge (c : Cfg ε) (hc : c.caching = true) (s : DStat
     (ph pa id : String) : msgSt ph pa id (snapMsg c s) = abs s ph pa id := msgSt_snapshot c hc s h ph pa id
 
 end Bobo.ClusterD
+
+
+/-! ---------------------------------------------------------------------------------------------
+## C06, whole cluster at the status-lattice level: every link idle ⇒ every instance knows the join of everything
+## announced anywhere (Lemmas/TcpCluster.lean)
+
+The pair model above has ONE sender and ONE receiver.  Here: `n` instances (`Fin n`), every instance runs the
+outgoing loop of Model/Tcp.lean against every other; device dict index `j` of every transport state is
+instance `j`.  `Cluster n` = per instance `t` (`TState Status`), `know`, the ghost `own`; per ordered pair
+`wire i j` and the ghost `heard i j` (join of what `j` applied from `wire i j`).  Steps (`cstep`, executable):
+
+  * `say i m`              : as `PStep.say` for all pairs of `i` (`own i ⊔= meaning m`, `know i ⊔= meaning m`, `push`);
+  * `pass i now outcome`   : ONE `outIter` on `t i` with the snapshot `⟨[],[],[know i]⟩`; for EVERY `j` the payload
+                             handed to the network for device `j` goes onto `wire i j` iff `(outcome j).1 = 0`
+                             (`wireAfter`, as in the pair model);
+  * `deliver i j k` / `redeliver i j k` : `j` applies the `k`-th message on `wire i j` (`know j` and `heard i j`
+                             grow), removing it / leaving it there;
+  * `incoming i frm flags` : `i`'s listener (`incoming`), any device index, any flags (RESET included).
+
+**Projection** (`cluster_run_is_pair_run`): for every ordered pair `i ≠ j` the cluster run IS the run
+`projSteps i j C0 steps` of the pair model (`i`'s `say` / `pass` / `incoming` map to themselves, `deliver i j k` to
+`deliver k`, a delivery `x → i` to `learn (meaning m)`, everything else to nothing), with `knowJ := heard i j`
+(the pair theorems only need a lower bound on what `j` knows; `heard i j ≤ know j` is part of `CInv`), and the
+per-instance monotone clocks `CMono` project to `PMono` with the same last clock.  So `PInv` holds of every
+projection (`cluster_pinv`) and `idle_pair_knows_everything` lifts (`idle_cluster_own_le_know`).
+**Nothing is invented** (`cluster_nothing_invented`, invariant `CInv`): every `know`, every record on a wire, in a
+queue, in a backlog is `≤ allOwn` (the join of all `own`, a fold over `List.finRange n`) — for the pass this is
+`outIter_good`: a payload is made of the snapshot, the queue head and the backlog only.
+
+Not modelled here: restarts of an instance.  The pair model has the restart of the RECEIVER only (`restartJ`); a
+restarted instance is also a SENDER that has lost `own ≤ knowS`, its queue and its backlogs, for which there is no
+pair-level theorem, and with sender restarts the equality below is false (an announcement sent to one peer only
+before the announcer restarts is never forwarded by that peer).  Hypotheses are those of
+`idle_pair_knows_everything`, per instance (`CInit`: everything empty / `bot`, a device entry with
+`last_comms ≥ 0` and a foreign urn for every other instance, epoch clocks; `CMono`: decision clocks per instance
+never go backwards).
+--------------------------------------------------------------------------------------------- -/
+namespace Bobo.Tcp
+section ClusterIdle
+open Bobo.Lattice
+
+/-- the link `i → j` is idle at `i`'s clock `L`: `j` not in `i`'s resync period, `i`'s backlog for `j` empty, `i`'s
+queue empty, nothing on `wire i j` (the four conditions of `idle_pair_knows_everything`). -/
+def LinkIdle {n : Nat} (C : Cluster n) (L : Int) (i j : Fin n) : Prop :=
+  ∃ e, (C.t i).peers[j.val]? = some e ∧ ¬ InResync (C.t i).cfg L e.2 ∧ stashOf e.2 = ([], [], []) ∧
+    (C.t i).queue = [] ∧ C.wire i j = []
+
+instance {n : Nat} (C : Cluster n) (L : Int) (i j : Fin n) : Decidable (LinkIdle C L i j) :=
+  match h : (C.t i).peers[j.val]? with
+  | none => isFalse (fun ⟨_, he, _⟩ => by rw [h] at he; cases he)
+  | some e =>
+    have : Decidable (¬ InResync (C.t i).cfg L e.2) :=
+      inferInstanceAs (Decidable (¬ (L - e.2.lastComms ≥ (C.t i).cfg.periodResync)))
+    decidable_of_iff
+      (¬ InResync (C.t i).cfg L e.2 ∧ stashOf e.2 = ([], [], []) ∧ (C.t i).queue = [] ∧ C.wire i j = [])
+      ⟨fun hh => ⟨e, h, hh⟩, fun ⟨e', he', hh⟩ => by rw [h] at he'; cases he'; exact hh⟩
+
+/-- **projection**: for every ordered pair `i ≠ j`, the cluster run is the run `projSteps i j C0 steps` of the
+pair model, from the projection of the initial state to the projection of the final state (fields `t`, `own`,
+`knowS := know i`, `knowJ := heard i j`, `wire := wire i j`; the ghost `missing` is the pair run's own), and the
+decision clocks of the pair run are monotone with the same last clock. -/
+theorem cluster_run_is_pair_run {n : Nat} (C0 : Cluster n) (L0 : Fin n → Int) (steps : List (CStep n))
+    (hmono : CMono L0 steps) (i j : Fin n) (hij : i ≠ j) :
+    PMono (L0 i) (projSteps i j C0 steps) ∧ pLastNow (L0 i) (projSteps i j C0 steps) = cLastNow L0 steps i ∧
+    ∃ ms, prun j.val (proj C0 i j []) (projSteps i j C0 steps) = proj (crun C0 steps) i j ms :=
+  ⟨(proj_clocks i j steps C0 L0 hmono).1, (proj_clocks i j steps C0 L0 hmono).2,
+    cluster_projects i j hij steps C0 []⟩
+
+/-- **nothing is invented**, and what was heard or announced is known: after every cluster run. -/
+theorem cluster_nothing_invented {n : Nat} (C0 : Cluster n) (L0 : Fin n → Int) (hinit : CInit C0 L0)
+    (steps : List (CStep n)) :
+    (∀ i, (crun C0 steps).own i ≤ (crun C0 steps).know i) ∧
+    (∀ i j, (crun C0 steps).heard i j ≤ (crun C0 steps).know j) ∧
+    (∀ i, (crun C0 steps).know i ≤ allOwn (crun C0 steps)) ∧
+    (∀ i j, ∀ m ∈ (crun C0 steps).wire i j, meaning m ≤ allOwn (crun C0 steps)) ∧
+    (∀ i, ∀ m ∈ ((crun C0 steps).t i).queue, meaning m ≤ allOwn (crun C0 steps)) ∧
+    (∀ i, ∀ e ∈ ((crun C0 steps).t i).peers, ∀ x ∈ e.2.stashC ++ e.2.stashH ++ e.2.stashU,
+      x ≤ allOwn (crun C0 steps)) := by
+  have h := cinv_run steps C0 (cinv_init C0 L0 hinit)
+  exact ⟨h.ownK, h.heardK, h.knowA, fun i j m hm => meaning_le (h.wireA i j m hm),
+    fun i m hm => meaning_le (h.queueA i m hm), h.stashA⟩
+
+/-- **lower bound (the convergence content)**: after every cluster run with per-instance monotone decision
+clocks, if the link `i → j` is idle then `j` knows everything `i` ever announced (for `i = j`: always). -/
+theorem idle_cluster_own_le_know {n : Nat} (C0 : Cluster n) (L0 : Fin n → Int) (hinit : CInit C0 L0)
+    (steps : List (CStep n)) (hmono : CMono L0 steps) (i j : Fin n)
+    (L : Int) (hL : cLastNow L0 steps i ≤ L) (hidle : i ≠ j → LinkIdle (crun C0 steps) L i j) :
+    (crun C0 steps).own i ≤ (crun C0 steps).know j := by
+  have hinv := cinv_run steps C0 (cinv_init C0 L0 hinit)
+  by_cases hij : i = j
+  · subst hij; exact hinv.ownK i
+  · obtain ⟨e, he, hres, hstash, hq, hw⟩ := hidle hij
+    simp only [stashOf, Prod.mk.injEq] at hstash
+    exact le_trans
+      (idle_link_heard C0 L0 hinit steps hmono i j hij L hL e he hres hstash.1 hstash.2.1 hstash.2.2 hq hw)
+      (hinv.heardK i j)
+
+/-- **`idle_cluster_converged`**: the cluster starts with nothing announced, known, on a wire, queued or in a
+backlog (`CInit`).  After EVERY cluster run — announcements at any instances, passes of any instance with any
+send outcomes (failures, timeouts, outages of any length), RESYNCs, deliveries on any wire in any order, duplicate
+deliveries, listener steps with any flags — whose decision clocks do not go backwards per instance: if at the end
+every link is idle (for every `i ≠ j`: `j` not in `i`'s resync period at `i`'s clock, `i`'s backlog for `j` empty,
+`i`'s queue empty, `wire i j` empty), then every instance knows exactly the join of everything announced
+anywhere. -/
+theorem idle_cluster_converged {n : Nat} (C0 : Cluster n) (L0 : Fin n → Int) (hinit : CInit C0 L0)
+    (steps : List (CStep n)) (hmono : CMono L0 steps)
+    (L : Fin n → Int) (hL : ∀ i, cLastNow L0 steps i ≤ L i)
+    (hidle : ∀ i j, i ≠ j → LinkIdle (crun C0 steps) (L i) i j) :
+    ∀ j, (crun C0 steps).know j = allOwn (crun C0 steps) := by
+  intro j
+  have hinv := cinv_run steps C0 (cinv_init C0 L0 hinit)
+  apply le_antisymm (hinv.knowA j)
+  apply allOwn_le
+  intro i
+  exact idle_cluster_own_le_know C0 L0 hinit steps hmono i j (L i) (hL i) (hidle i j)
+
+/-- … so all instances hold the same status. -/
+theorem idle_cluster_agrees {n : Nat} (C0 : Cluster n) (L0 : Fin n → Int) (hinit : CInit C0 L0)
+    (steps : List (CStep n)) (hmono : CMono L0 steps)
+    (L : Fin n → Int) (hL : ∀ i, cLastNow L0 steps i ≤ L i)
+    (hidle : ∀ i j, i ≠ j → LinkIdle (crun C0 steps) (L i) i j) (a b : Fin n) :
+    (crun C0 steps).know a = (crun C0 steps).know b := by
+  rw [idle_cluster_converged C0 L0 hinit steps hmono L hL hidle a,
+    idle_cluster_converged C0 L0 hinit steps hmono L hL hidle b]
+
+/-! ### non-vacuity: three instances, two announcements, a failed SYNC, a later SYNC, a RESYNC -/
+
+/-- "a", "b", "c" (instances 0, 1, 2), everybody in contact with everybody; default periods. -/
+def cl0 : Cluster 3 :=
+  { t := fun i => ⟨["a", "b", "c"].getD i.val "", Periods.default, [],
+      [("a", ⟨995, 995, 0, false, [], [], []⟩), ("b", ⟨995, 995, 0, false, [], [], []⟩),
+       ("c", ⟨995, 995, 0, false, [], [], []⟩)]⟩,
+    own := fun _ => bot, know := fun _ => bot, heard := fun _ _ => bot, wire := fun _ _ => [] }
+
+def clRun : List (CStep 3) :=
+  [ .say 0 ⟨[], [], [active 1 1]⟩,          -- a announces
+    .pass 0 1000 (failB 1001),               -- a: SYNC to b fails (backlog), SYNC to c on the wire
+    .say 2 ⟨[], [halted], []⟩,               -- c announces
+    .pass 2 1000 (fun _ => (0, 1001)),       -- c: SYNC to a and to b
+    .deliver 0 2 0,
+    .deliver 2 0 0,
+    .redeliver 2 1 0,
+    .deliver 2 1 0,
+    .incoming 1 0 0,
+    .pass 0 1006 (fun _ => (0, 1007)),       -- a: the backlog goes to b in a later SYNC
+    .deliver 0 1 0,
+    .pass 1 1100 (fun _ => (0, 1101)),       -- b: a and c are in b's resync period: RESYNC (snapshot = halted)
+    .deliver 1 0 0,
+    .deliver 1 2 0 ]
+
+/-- the clocks at which the links are looked at: each instance's last decision clock. -/
+def clL : Fin 3 → Int := fun i => [1006, 1100, 1000].getD i.val 0
+
+theorem cl0_init : CInit cl0 (fun _ => 999) where
+  own0 := fun _ => rfl
+  know0 := fun _ => rfl
+  heard0 := fun _ _ => rfl
+  wire0 := fun _ _ => rfl
+  queue0 := fun _ => rfl
+  stash0 := by decide
+  peer0 := by
+    intro i j hij
+    have h : ∀ i j : Fin 3, i ≠ j →
+        (cl0.t i).peers[j.val]? = some (["a", "b", "c"].getD j.val "", ⟨995, 995, 0, false, [], [], []⟩) ∧
+        ["a", "b", "c"].getD j.val "" ≠ (cl0.t i).self := by decide
+    exact ⟨_, (h i j hij).1, (h i j hij).2, by show (0 : Int) ≤ 995; decide⟩
+  epoch := by decide
+
+example :
+    CMono (fun _ => 999) clRun ∧ (∀ i, cLastNow (fun _ => 999) clRun i ≤ clL i) ∧
+    -- after a's first pass: the change is in b's backlog, nothing on the wire to b, on the wire to c
+    ((crun cl0 (clRun.take 2)).t 0).peers[1]? = some ("b", ⟨995, 1001, 0, false, [], [], [active 1 1]⟩) ∧
+    (crun cl0 (clRun.take 2)).wire 0 1 = [] ∧ (crun cl0 (clRun.take 2)).wire 0 2 = [⟨[], [], [active 1 1]⟩] ∧
+    -- after c's pass
+    (crun cl0 (clRun.take 4)).wire 2 0 = [⟨[], [halted], []⟩] ∧ (crun cl0 (clRun.take 4)).wire 2 1 = [⟨[], [halted], []⟩] ∧
+    -- b knows c's change but not a's
+    (crun cl0 (clRun.take 9)).know 1 = halted ∧ (crun cl0 (clRun.take 9)).heard 0 1 = bot ∧
+    -- a's later SYNC carries the backlog
+    (crun cl0 (clRun.take 10)).wire 0 1 = [⟨[], [], [active 1 1]⟩] ∧
+    (crun cl0 (clRun.take 11)).heard 0 1 = active 1 1 ∧
+    -- b's RESYNCs carry its snapshot
+    (crun cl0 (clRun.take 12)).wire 1 0 = [⟨[], [], [halted]⟩] ∧ (crun cl0 (clRun.take 12)).wire 1 2 = [⟨[], [], [halted]⟩] ∧
+    -- the end: every link idle, what was announced, and what everybody knows
+    (∀ i j, i ≠ j → LinkIdle (crun cl0 clRun) (clL i) i j) ∧
+    (crun cl0 clRun).own 0 = active 1 1 ∧ (crun cl0 clRun).own 1 = bot ∧ (crun cl0 clRun).own 2 = halted ∧
+    allOwn (crun cl0 clRun) = halted ∧ halted ≠ bot ∧
+    (crun cl0 clRun).know 0 = halted ∧ (crun cl0 clRun).know 1 = halted ∧ (crun cl0 clRun).know 2 = halted := by
+  decide
+
+/-- … and the same through the theorem. -/
+example : ∀ j, (crun cl0 clRun).know j = allOwn (crun cl0 clRun) :=
+  idle_cluster_converged cl0 (fun _ => 999) cl0_init clRun (by decide) clL (by decide) (by decide)
+
+/-- the pair `(a, b)` of this run, as the pair model sees it. -/
+example : projSteps 0 1 cl0 clRun =
+    [ .say ⟨[], [], [active 1 1]⟩, .pass 1000 (failB 1001), .learn halted, .pass 1006 (fun _ => (0, 1007)),
+      .deliver 0, .learn halted ].map id ∧
+    projSteps 1 0 cl0 clRun =
+    [ .learn halted, .learn halted, .incoming 0 0, .learn (active 1 1), .pass 1100 (fun _ => (0, 1101)), .deliver 0 ].map id := by
+  refine ⟨?_, ?_⟩ <;> rfl
+
+end ClusterIdle
+end Bobo.Tcp
